@@ -82,14 +82,33 @@ class Model:
 
     # -- lookups ----------------------------------------------------------------------------
     @staticmethod
-    def find(store, ns, spelled):
+    def find_none(store, s):
+        """Lookup without a namespace id: the prefix of the full title alone selects the namespace; a title
+        without a prefix is a main-namespace title.  The statement makes lookups insensitive to the prefix
+        being aliased / written in another case and lets a lower-case first letter find the upper-cased
+        page outside the main namespace; the pinned code matches the stored full title literally when no
+        namespace id is given.  Where the two readings differ the answer is SKIP (only the relation
+        'existence check == lookup, same arguments' is asserted there)."""
+        low = s.lower()
+        for n, (name, others) in NS.items():
+            if not n:
+                continue
+            for pre in [name] + others:
+                if low.startswith(pre.lower() + ":"):
+                    if not s.startswith(name + ":"):
+                        return SKIP
+                    rest = s[len(name) + 1:]
+                    r = store.get((n, rest))
+                    if r is None and ucfirst(rest) != rest and (n, ucfirst(rest)) in store:
+                        return SKIP
+                    return r
+        return store.get((0, s))
+
+    @classmethod
+    def find(cls, store, ns, spelled):
         s = spelled.replace("_", " ")
         if ns is None:
-            # full-title lookup without a namespace: exact full title only
-            for n, (name, _o) in NS.items():
-                if n and s.startswith(name + ":"):
-                    return store.get((n, s[len(name) + 1:]))
-            return store.get((0, s))
+            return cls.find_none(store, s)
         s = strip_prefix(ns, s)
         if not s:
             return None
@@ -103,13 +122,21 @@ class Model:
         """-> (page-level expectation, body-level expectation); either may be SKIP.
         store2 (diagnosis only): the state in which the redirect's target is looked up."""
         r = cls.find(store, ns, spelled)
+        if r is SKIP:
+            return SKIP, SKIP
         if r is None:
             return None, None
         if r.redirect is None:
             return r, r.body
         if store2 is not None:
             store = store2
+        if ns is None and r.ns and strip_prefix(r.ns, r.redirect.replace("_", " ")) == r.redirect.replace("_", " "):
+            # target written without a prefix, looked up without a namespace id: the redirect's namespace
+            # or the main namespace?  not said
+            return SKIP, SKIP
         t = cls.find(store, ns, r.redirect)
+        if t is SKIP:
+            return SKIP, SKIP
         if t is None:
             return None, None
         if t.redirect is None:
@@ -127,7 +154,8 @@ class Model:
         if op in ("get", "getfull"):
             return cls.find(store, None if op == "getfull" else ns, spelled)
         if op == "exists":
-            return cls.find(store, ns, spelled) is not None
+            r = cls.find(store, ns, spelled)
+            return SKIP if r is SKIP else r is not None
         if op == "resolve":
             return cls.resolve(store, ns, spelled, store2)[0]
         if op == "body":
